@@ -169,7 +169,9 @@ def run(R, name, B, only=None, flags=(False, True), auto_only=False):
 
 QUICK_ENVS = ["Knapsack", "Maze@3x3", "Snake", "Cleaner@3x3x1", "GraphColoring", "TSP", "SlidingTilePuzzle", "Connector", "Minesweeper", "CVRP", "JobShop"]
 # heavier equivalence queries (minutes each): thorough tier only
-THOROUGH_ENVS = ["Tetris", "RubiksCube", "LevelBasedForaging", "Sudoku", "FlatPack", "Sokoban", "MultiCVRP", "Game2048", "RobotWarehouse", "BinPack@csv"]
+# RobotWarehouse is not in the list: its step draws with jax.random.choice(replace=False) on an operand that is batched under vmap, for
+# which the permutation stub is not lane-consistent (first end-to-end run of this tier: models that do not replay) - not claimed
+THOROUGH_ENVS = ["Tetris", "RubiksCube", "LevelBasedForaging", "Sudoku", "FlatPack", "Sokoban", "MultiCVRP", "Game2048", "BinPack@csv"]
 JOBTIMEOUT = {"quick": 600, "thorough": 2400}
 
 
